@@ -1,5 +1,6 @@
 // C14: hash sets and maps are linearizable, including during growth (DESIGN.md 9/C14); C18 post-conditions.
 #include "sets.h"
+#include "seq.h"
 
 #ifndef FAMILY
 #   define FAMILY 1
@@ -40,7 +41,7 @@ namespace cc = cds::container;
 
 namespace {
 
-const char* prop() { return vh::property() == "C18" ? "C18" : vh::property() == "C19" ? "C19" : "C14"; }
+const char* prop() { return vh::property() == "C18" ? "C18" : vh::property() == "C19" ? "C19" : vh::property() == "C20" ? "C20" : "C14"; }
 std::vector<Scenario> g_scen;
 
 struct caps_hash: caps_hp { typedef std::false_type ordered_iter; };
@@ -57,6 +58,14 @@ void family( std::string const& tname, std::vector<int> keys, int step, int bq =
 {
     typedef SetAdapter<Set, Smr, Caps, prop> A;
     std::string base = tname + "/" + Smr::name();
+    if ( vh::property() == "C20" ) {
+        // colliding keys; the second start state has grown the table / split slots already
+        std::vector<int> ks = { keys[0], keys[1], keys[2] }, u = ks; u.push_back( 0 );
+        TProg full; for ( int k : ks ) full.push_back( POp{ INS, k, 0 } );
+        for ( int k : iter_keys ) { bool in = false; for ( int q : ks ) if ( q == k ) in = true; if ( !in ) { full.push_back( POp{ INS, k, 0 } ); u.push_back( k ); } }
+        add_seq_scenarios<A, Caps>( g_scen, base, ks, u, { TProg(), full }, 3, 4 );
+        return;
+    }
     if ( vh::property() == "C19" ) {
         if ( Caps::safe_iter::value && !iter_keys.empty()) {
             std::vector<int> u = iter_keys; u.push_back( 0 );
@@ -79,7 +88,7 @@ template <class Set, class Smr, class Caps>
 void growth( std::string const& tname, std::vector<int> k, int bq, int bt )
 {
     typedef SetAdapter<Set, Smr, Caps, prop> A;
-    if ( vh::property() == "C19" ) return;
+    if ( vh::property() == "C19" || vh::property() == "C20" ) return;
     std::string base = tname + "/" + Smr::name();
     std::vector<int> universe = k; universe.push_back( 0 );
     auto P = [&]( std::string name, TProg pre, std::vector<TProg> th, int q, int t ) {
